@@ -112,7 +112,7 @@ render(char *buf, size_t bsz, echs_instant_t i, int f, bool *secres)
 static void
 dt_viol(int clause, int f, echs_instant_t x, echs_instant_t got, echs_instant_t want, const char *text, const char *how)
 {
-	static const char *cn[] = {"dt-print", "dt-parse", "dt-reprint"};
+	static const char *cn[] = {"dt-print", "dt-parse", "dt-reprint", "dt-end"};
 	int err = got.u == 0U ? 0 : got.dpart != want.dpart ? 1 : (got.H != want.H || got.M != want.M || got.S != want.S) ? 2 : 3;
 	static const char *en[] = {"nul", "date-wrong", "time-wrong", "ms-wrong"};
 	int kind = x.H == ECHS_ALL_DAY ? 0 : x.ms == ECHS_ALL_SEC ? 1 : 2;
@@ -128,6 +128,9 @@ dt_viol(int clause, int f, echs_instant_t x, echs_instant_t got, echs_instant_t 
 		lv_set(id, sig, "instant %s, text \"%s\": %s gives %s, want %s", raw(x), text, how, raw(got), raw(want));
 	}
 }
+
+/* forms whose text dt_strp must consume completely (bit f), --opt endforms= */
+static unsigned endforms;
 
 /* every form of one instant */
 static void
@@ -186,6 +189,18 @@ chk_instant(echs_instant_t x)
 			if (got.u != want.u) {
 				dt_viol(1, f, x, got, want, ref, withlen ? "dt_strp(text, len)" : "dt_strp(text, 0)");
 			} else {
+				/* the whole text was the instant: the end handed back is the end of the text (a trailing Z
+				 * included), which is what a caller needs who finds the text inside a line */
+				if (endforms & (1 << f) && on != s + len) {
+					int id = 3 << 9 | f << 5 | (x.H == ECHS_ALL_DAY ? 0 : x.ms == ECHS_ALL_SEC ? 1 : 2) << 3 | withlen;
+					if (lv_hit(id)) {
+						char sig[120];
+						snprintf(sig, sizeof(sig), "dt-end/%s/%s/%s", fname[f], ikind(x),
+							 on == NULL ? "no-end" : on < s + len ? "short" : "beyond");
+						lv_set(id, sig, "instant %s, text \"%s\" (%zu characters): %s reads the instant but hands back the end at offset %td",
+						       raw(x), ref, len, withlen ? "dt_strp(text, &end, len)" : "dt_strp(text, &end, 0)", on ? on - s : -1);
+					}
+				}
 				/* print(parse(s)) parses to the same value again */
 				char again[48];
 				echs_instant_t g2;
@@ -675,6 +690,7 @@ static void
 enumerate(void)
 {
 	const char *mode = vd_opt("mode", "dt");
+	endforms = (unsigned)vd_opt_l("endforms", (1 << NFORMS) - 1);
 
 	vd_count_cases = 0;
 	if (!strcmp(mode, "dt")) {
